@@ -16,6 +16,15 @@ ACC = "eqsig.single.AccSignal"
 
 def run(chk):
     P = chk.P
+    # an integer-typed record: every step of the recurrence is a real number; stored into buffers that inherit the record's dtype it is truncated
+    from ..tyob import no_truncation as _no_trunc
+    _fi0 = chk.P.fn("eqsig.sdof.nigam_and_jennings_response")
+    _no_trunc(chk, "R-NJ-REC", "eqsig.sdof.nigam_and_jennings_response",
+              lambda I, st, fi: {fi.params[0]: rec_array(fi.params[0], dtype="int"), fi.params[1]: pos_scalar("dt", DT),
+                                 fi.params[2]: AV(kind=K_ARRAY, dtype="real", shape=(LinExpr("P"),), sign=S_NONNEG, origin=frozenset(["p:periods"]),
+                                                  tags=frozenset(["p:periods"])),
+                                 fi.params[3]: AV(kind=K_SCALAR, dtype="real", shape=(), sign=S_NONNEG, origin=frozenset(["lit"]), tags=frozenset(["p:xi"]), note="pyscalar")},
+              "eqsig/sdof.py:nigam_and_jennings_response(integer-typed record)", what="an integer-typed record")
     chk.rule("R-T0", "offset s is 1 exactly when periods[0] == 0; every recurrence store has row slice s: (rows < s keep their "
                      "np.zeros value); with s = 1 the third result's row 0 is assigned minus the record")
     chk.rule("R-ACC", "on both branches the third result equals -2*xi*w*v - w^2*u on rows s: (linear form of the stored expression, "
